@@ -27,7 +27,7 @@ import (
 )
 
 type SpStmt struct {
-	K    string `json:"k"` // set | argv | t | gv | g | rebuild
+	K    string `json:"k"` // set | argv | t | tf (every field) | gv | g | rebuild | x (exit N; N < 0: bare exit) | n (next) | nf (nextfile)
 	Name string `json:"name,omitempty"`
 	Val  string `json:"val,omitempty"`
 	N    int    `json:"n,omitempty"` // t: tag; argv: index
@@ -46,9 +46,16 @@ type SpProg struct {
 	Stdin  string            `json:"stdin"`
 	Raw    map[string]string `json:"raw"` // file name -> content
 	InFunc bool              `json:"in_func,omitempty"` // assignments are made by user functions
+	// program SHAPE (shape.go): pattern-action rules rendered before the counting rule, each one of
+	//   empty `{ }` | always-empty `1 { }` | never `cnt < 0 { tr(7) }` | never-bare `cnt < 0` | range-empty `1, 0 { }` |
+	//   range-never `cnt < 0, 1 { tr(7) }` | print `1` (no action: prints $0)
+	Pre    []string `json:"pre,omitempty"`
+	NoTick bool     `json:"no_tick,omitempty"` // no counting / tracing rule (then Rules is empty)
+	NoEnd  bool     `json:"no_end,omitempty"`  // no END block
+	Fam    string   `json:"fam,omitempty"`     // "" | shape | resume — the stream the case belongs to (distribution only)
 }
 
-var spNumeric = map[string]bool{"NR": true, "FNR": true, "ARGC": true}
+var spNumeric = map[string]bool{"NR": true, "FNR": true, "ARGC": true, "NF": true}
 
 // ---- AWK rendering ---------------------------------------------------------------------------------------------------------
 
@@ -81,6 +88,18 @@ func (p *SpProg) stmts(ss []SpStmt, ind string, funcs *[]string) string {
 			fmt.Fprintf(&b, "%sr = (getline)\n%sprintf \"G0 %%d %%d\\n\", r, NF\n", ind, ind)
 		case "rebuild":
 			fmt.Fprintf(&b, "%s$1 = $1\n", ind)
+		case "tf":
+			fmt.Fprintf(&b, "%stf(%d)\n", ind, s.N)
+		case "x":
+			if s.N < 0 {
+				fmt.Fprintf(&b, "%sprint \"X\"\n%sexit\n", ind, ind)
+			} else {
+				fmt.Fprintf(&b, "%sprint \"X %d\"\n%sexit %d\n", ind, s.N, ind, s.N)
+			}
+		case "n":
+			fmt.Fprintf(&b, "%sprint \"N\"\n%snext\n", ind, ind)
+		case "nf":
+			fmt.Fprintf(&b, "%sprint \"NF\"\n%snextfile\n", ind, ind)
 		default:
 			panic("bad special stmt " + s.K)
 		}
@@ -94,12 +113,20 @@ func (p *SpProg) awk() string {
 	if len(p.Begin) > 0 {
 		b.WriteString("BEGIN {\n" + p.stmts(p.Begin, "  ", &funcs) + "}\n")
 	}
-	b.WriteString("{\n  cnt++\n  tr(0)\n}\n")
+	for _, k := range p.Pre {
+		b.WriteString(spPreRule[k] + "\n")
+	}
+	if !p.NoTick {
+		b.WriteString("{\n  cnt++\n  tr(0)\n}\n")
+	}
 	for _, r := range p.Rules {
 		fmt.Fprintf(&b, "cnt == %d {\n%s}\n", r.At, p.stmts(r.Body, "  ", &funcs))
 	}
-	b.WriteString("END {\n" + p.stmts(p.End, "  ", &funcs) + "}\n")
+	if !p.NoEnd {
+		b.WriteString("END {\n" + p.stmts(p.End, "  ", &funcs) + "}\n")
+	}
 	b.WriteString("function tr(t) {\n  printf \"T%d %s %d %d %d [%s] <%s|%s|%s> {%s}\\n\", t, FILENAME, NR, FNR, NF, $0, $1, $2, $NF, v0\n}\n")
+	b.WriteString("function tf(t,  i) {\n  printf \"F%d %d\", t, NF\n  for (i = 1; i <= NF; i++) printf \" (%s)\", $i\n  printf \"\\n\"\n}\n")
 	b.WriteString(strings.Join(funcs, ""))
 	return b.String()
 }
@@ -127,6 +154,7 @@ type spSim struct {
 	cnt               int
 
 	out       strings.Builder
+	status    int
 	undefined string // the case steps outside what the property decides
 }
 
@@ -239,6 +267,13 @@ func (s *spSim) assign(name, val string) {
 		s.mode = val
 	case "OFS":
 		s.ofs = val
+	case "NF": // the current record is cut or padded to that many fields and $0 rebuilt with OFS
+		n, _ := strconv.Atoi(val)
+		for len(s.fields) < n {
+			s.fields = append(s.fields, "")
+		}
+		s.fields = append([]string(nil), s.fields[:n]...)
+		s.line = strings.Join(s.fields, s.ofs)
 	case "NR":
 		s.nr, _ = strconv.Atoi(val)
 	case "FNR":
@@ -324,7 +359,8 @@ func (s *spSim) field(i int) string {
 	return ""
 }
 
-func (s *spSim) exec(ss []SpStmt) {
+// exec returns 0 (fell through), 1 (next), 2 (nextfile) or 3 (exit)
+func (s *spSim) exec(ss []SpStmt) int {
 	for _, st := range ss {
 		switch st.K {
 		case "set":
@@ -337,6 +373,12 @@ func (s *spSim) exec(ss []SpStmt) {
 		case "t":
 			fmt.Fprintf(&s.out, "T%d %s %d %d %d [%s] <%s|%s|%s> {%s}\n", st.N, s.filename, s.nr, s.fnr, len(s.fields), s.line,
 				s.field(1), s.field(2), s.field(len(s.fields)), s.v0)
+		case "tf":
+			fmt.Fprintf(&s.out, "F%d %d", st.N, len(s.fields))
+			for _, f := range s.fields {
+				fmt.Fprintf(&s.out, " (%s)", f)
+			}
+			s.out.WriteString("\n")
 		case "gv":
 			r, k := s.nextLine()
 			if k == 1 {
@@ -354,45 +396,100 @@ func (s *spSim) exec(ss []SpStmt) {
 				s.fields = []string{""}
 			}
 			s.line = strings.Join(s.fields, s.ofs)
+		case "x":
+			if st.N < 0 {
+				s.out.WriteString("X\n")
+			} else {
+				fmt.Fprintf(&s.out, "X %d\n", st.N)
+				s.status = st.N
+			}
+			return 3
+		case "n":
+			s.out.WriteString("N\n")
+			return 1
+		case "nf":
+			s.out.WriteString("NF\n")
+			return 2
 		}
 	}
+	return 0
+}
+
+// spPreRule: the pattern-action rules of a program shape, as AWK text (none of them traces anything; `print` prints $0)
+var spPreRule = map[string]string{
+	"empty":        "{ }",
+	"always-empty": "1 { }",
+	"never":        "cnt < 0 { tr(7) }",
+	"never-bare":   "cnt < 0",
+	"range-empty":  "1, 0 { }",
+	"range-never":  "cnt < 0, 1 { tr(7) }",
+	"print":        "1",
 }
 
 // spExpected: the whole expected output; fatal = the main loop reached an operand naming a missing file
 func spExpected(cs *Case) (out string, fatal bool, undefined string) {
+	out, _, fatal, undefined = spExpected4(cs)
+	return
+}
+
+// spExpected4: … and the exit status. The sequencing is the property's: BEGIN; unless BEGIN exited, one pass over the records
+// of the main input from wherever BEGIN's getlines left it (no pass at all when the program has neither a pattern-action rule
+// nor END); END (also after exit in BEGIN or in a rule), which finds $0 / NF / the fields of the last record and the main input
+// exactly where it was left.
+func spExpected4(cs *Case) (out string, status int, fatal bool, undefined string) {
 	p := cs.Sp
 	s := &spSim{p: p, argv: append([]string{"awk"}, cs.Args...), argc: len(cs.Args) + 1, idx: 1, stdin: p.Stdin,
 		fs: " ", rs: "\n", ofs: " "}
 	for i := 0; i+1 < len(p.Vars); i += 2 {
 		s.assign(p.Vars[i], p.Vars[i+1])
 	}
-	s.exec(p.Begin)
-	for {
+	sig := s.exec(p.Begin)
+	if p.NoTick && len(p.Pre) == 0 && p.NoEnd {
+		return s.out.String(), s.status, false, s.undefined // only BEGIN (or only functions): the input is not read
+	}
+	for sig != 3 {
 		r, k := s.nextLine()
 		if k < 0 {
-			return s.out.String(), true, s.undefined
+			return s.out.String(), 0, true, s.undefined
 		}
 		if k == 0 {
 			break
 		}
 		s.setLine(r)
-		s.cnt++
-		s.exec([]SpStmt{{K: "t", N: 0}})
-		for _, rule := range p.Rules {
-			if rule.At == s.cnt {
-				s.exec(rule.Body)
+		for _, pre := range p.Pre {
+			if pre == "print" {
+				s.out.WriteString(s.line + "\n")
 			}
 		}
+		if !p.NoTick {
+			s.cnt++
+			s.exec([]SpStmt{{K: "t", N: 0}})
+		}
+		for _, rule := range p.Rules {
+			if rule.At == s.cnt {
+				if sig = s.exec(rule.Body); sig != 0 {
+					break
+				}
+			}
+		}
+		if sig == 2 { // nextfile: the rest of the current input is never delivered
+			s.cur = nil
+		}
 	}
-	s.exec(p.End)
-	return s.out.String(), false, s.undefined
+	if !p.NoEnd {
+		s.exec(p.End)
+	}
+	return s.out.String(), s.status, false, s.undefined
 }
 
 func specialOracle(cs *Case, r result) []finding {
 	var fs []finding
-	want, fatal, undef := spExpected(cs)
+	want, status, fatal, undef := spExpected4(cs)
 	if undef != "" {
 		return nil
+	}
+	if !fatal && !r.errd && r.status != status {
+		fs = append(fs, finding{What: "special: the exit status is not the last exit value", Got: fmt.Sprint(r.status), Want: fmt.Sprint(status)})
 	}
 	got := r.res.Out
 	if got != want {
